@@ -53,6 +53,7 @@ func init() {
 		Rules: func(c *Ctx) {
 			ruleC15ScanFilter(c)
 			ruleProtocol(c, "C15.PROTOCOL")
+			ruleDeleteMembership(c, "C15.DELETEMEMBER")
 			ruleChildUpdateHandled(c, "C15.CHILDUPDATE")
 			ruleNeverNilCtor(c, "C15.NEWBUCKET")
 			ruleEntityBucketDescent(c, "C15.ENTITYBUCKET")
@@ -101,6 +102,7 @@ func init() {
 			ruleUpdateRunsHooks(c, "C16.HOOKSRUN")
 			// the hooks of every level of the store chain run (the system-entity constraint sits on the root store)
 			ruleProtocol(c, "C16.PROTOCOL")
+			ruleDeleteMembership(c, "C16.DELETEMEMBER")
 			// a refusal recorded in the child's error holder must survive the hand-over to the parent context
 			ruleParentChain(c, "C16.CHAIN")
 		},
